@@ -347,7 +347,7 @@ def gen_init(rng, lead, K, N, kind):
         m = float(rng.uniform(0.01, 0.9)) / K
         a = np.eye(K)[lab].T
         a = np.where(a > 0, 1 - (K - 1) * m, m)
-        return np.broadcast_to(a, sh + (K, N)).copy()
+        return np.broadcast_to(a, sh + (K, N)).copy(order='K')
     raise ValueError(kind)
 
 
